@@ -1,14 +1,14 @@
 """Hostile inputs for C04: token soups over a language's delimiters and byte-level mutations."""
 from .langs import LANGS
 
-TAG_FRAGS = ["<block", "<block>", "<block name=\"", "<block name='x'", "<block a=b", "<block\n", "</", "</block", "</block>",
+TAG_FRAGS = ["<block line-count=\"<3\"></block>", "<block keep-sorted></block>", "<block keep-unique>x</block>", "<block", "<block>", "<block name=\"", "<block name='x'", "<block a=b", "<block\n", "</", "</block", "</block>",
              "< / block >", "</ block>", "<block/>", "<block name=x>", "<block keep-sorted>", "<block line-count=\"<3\">",
              "<block keep-unique=\"(\">", "<block affects=\":x\">", "<", ">", "=", "<!", "<blockquote>", "<block name=>"]
 COMMON = ["\n", "\n", "\r\n", " ", "\t", "\"", "'", "`", "(", ")", "[", "]", "{", "}", "\\", "x", "a1", ";", ":", ",",
           " ", "‍", "\U0001F468‍\U0001F469‍\U0001F467", "é", " ", "\u0085", "﻿", "\x0b", "\x0c",
           "\x1b", "\x7f", "é", "日本", "*", "/", "#", "-", "!", "?", "%", "$", "@", "&amp;", "0"]
 BY_FAMILY = {
-    "c": ["/*", "*/", "/*/", "//", "/**", "/**/", "///", "//!", "*", "/* *", "*/ /*", "/*!"],
+    "c": ["/*", "*/", "/*/", "//", "/**", "/**/", "///", "//!", "*", "/* *", "*/ /*", "/*!", "\n\u3000* ", "\n\u00a0 * ", "\n \u00a0", "\n\u3000", " ** ", "\n ** "],
     "hash": ["#", "#!", "##", "# ", "=begin", "=end", "\"\"\"", "'''", "<<EOF", "EOF"],
     "xml": ["<!--", "-->", "<!--->", "<!---->", "--", "--!>", "<![CDATA[", "]]>", "<?xml", "?>", "<a>", "</a>", "<a b=\"", "&lt;"],
     "md": ["[//]:", "[//]: #", "[//]: # (", "[//]: # \"", "[//]: # '", "[//]: #?>", ")", "```", "~~~", "    ", "> ", "- ", "1. ",
